@@ -287,6 +287,29 @@ func init() {
 			optDoes("WithSSL", "c.useSSL = true") && optDoes("WithSSLPort", "c.SetSSLPort(true, fallback)")
 		emitBool("cfg_setters_unconditional", setters, "client.go: (With|Set)TLSPolicy, (With|Set)TLSPortPolicy, WithSSL/SetSSL, (With|Set)SSLPort assign tlspolicy / useSSL as their last statement, without a return before it; port side effects only under c.port == DefaultPort")
 
+		// smtp.Client.cmd: every return path after Text.StartResponse(id) goes through Text.EndResponse(id) -- otherwise the
+		// textproto pipeline is never advanced and the next command waits in StartResponse for ever
+		endResp := false
+		if fn, ok := sp.funcs["Client.cmd"]; ok && fn.Body != nil {
+			st := callPositions(sp, fn.Body, ".StartResponse")
+			en := callPositions(sp, fn.Body, ".EndResponse")
+			if len(st) == 1 && len(en) == 1 && st[0] < en[0] {
+				endResp = true
+				ast.Inspect(fn.Body, func(x ast.Node) bool {
+					if rs, ok := x.(*ast.ReturnStmt); ok && rs.Pos() > st[0] && rs.Pos() < en[0] {
+						endResp = false
+					}
+					if _, ok := x.(*ast.DeferStmt); ok {
+						endResp = false // a deferred call would need its own analysis
+					}
+					return true
+				})
+			}
+		} else {
+			untranslatable = append(untranslatable, "smtp_cmd_site")
+		}
+		emitBool("smtp_cmd_endresponse_always", endResp, "smtp/smtp.go Client.cmd: no return between Text.StartResponse(id) and Text.EndResponse(id)")
+
 		// sendSingleMsg: a failed RSET after a failed MAIL / RCPT / DATA closes the connection; a rejected DATA is
 		// followed by RSET (repairs of C03/C04 that change the send dialogue the dial-and-send model runs through)
 		sendAbort := false
